@@ -94,11 +94,14 @@ func run(c *fw.Ctx) {
 	reps := c.Pick(2, 12)
 	var cfgs []schedCfg
 	for rep := 0; rep < reps; rep++ {
-		for _, server := range []string{"webdav", "caldav", "carddav", "raw-caldav", "raw-carddav"} {
+		for _, server := range []string{"webdav", "caldav", "carddav", "raw-caldav", "raw-carddav", "principal"} {
 			for _, n := range []int{2, 4, 16, 64} {
 				for _, p := range []int{1, 2, 4, 16} {
 					if !c.Thorough() && (n == 64 && p != 4) {
 						continue
+					}
+					if !c.Thorough() && server == "principal" && rep > 0 {
+						continue // one round of principal schedules in the quick tier
 					}
 					steps := 20
 					if n <= 4 && c.Thorough() {
@@ -128,10 +131,16 @@ func run(c *fw.Ctx) {
 			runCardSchedule(c, cfg, i)
 		case "raw-caldav", "raw-carddav":
 			runRawSchedule(c, cfg, i)
+		case "principal":
+			runPrincipalSchedule(c, cfg, i)
 		}
 	}
 	// calls while an upload is open
 	runCompanions(c)
+	// many uploads open at once, finished in an order of the caller's own
+	runManyOpen(c)
+	// a refused request, then requests to unrelated resources on the same client
+	runSequels(c)
 	// upload fault matrix (exhaustive)
 	for i, cs := range uploadMatrix(c.Thorough()) {
 		if !c.Mine(i) {
@@ -163,17 +172,30 @@ func init() {
 			var cw struct {
 				Case *companionCase `json:"case"`
 			}
+			var mw struct {
+				Case *manyOpenCase `json:"case"`
+			}
+			var sw struct {
+				Case *sequelCase `json:"case"`
+			}
 			if json.Unmarshal(w, &cw) == nil && cw.Case != nil && cw.Case.Companion != "" {
 				execCompanion(c, *cw.Case, 0)
+			} else if json.Unmarshal(w, &mw) == nil && mw.Case != nil && mw.Case.K > 0 {
+				execManyOpen(c, *mw.Case, 0)
+			} else if json.Unmarshal(w, &sw) == nil && sw.Case != nil && sw.Case.Failing != "" {
+				execSequel(c, *sw.Case, 0)
 			} else if json.Unmarshal(w, &wit) == nil && wit.Case != nil {
 				execUpload(c, *wit.Case)
 			} else {
 				fmt.Println("schedule witnesses are not replayable deterministically; witness:", string(w))
 			}
 		},
-		Rule: "schedules: N in {2,4,16,64} goroutines x mixed operations on private subtrees through ONE handler and ONE client (webdav on disk, caldav and carddav on recording backends; in-process and over TCP), GOMAXPROCS in {1,2,4,16}, driver-side jitter, repeated; every result is compared with the private solo model of that worker and the final directory with the union of the workers' trees; the worker binary is built with -race and the race log is read back. " +
-			"fault matrix (exhaustive): scripted raw-TCP server {answers before reading, reads k bytes then answers / drops / resets, stalls until the caller cancels, reads all then answers} x status x {close, drain, hold} x size {0, 10 B, 1 MiB, 8 MiB} x write chunking x caller behaviour x caller-side cancellation point {never, at 0, half-way, after the last Write}; call/return events at the caller and at the inner HTTP client boundary stamped from one counter. " +
+		Rule: "schedules: N in {2,4,16,64} goroutines x mixed operations on private subtrees through ONE handler and ONE client (webdav on disk, caldav and carddav on recording backends; in-process and over TCP), GOMAXPROCS in {1,2,4,16}, driver-side jitter, repeated; the webdav workers build two-level trees and copy / move / delete populated collections (also Depth 0); raw schedules send hand-written requests of every kind, refused and mutating ones included (the backends' call logs must only show each user's own paths and objects); every result is compared with the private solo model of that worker and the final directory with the union of the workers' trees; the worker binary is built with -race and the race log is read back. " +
+			"fault matrix (exhaustive): scripted raw-TCP server {answers before reading, reads k bytes then answers / drops / resets, stalls until the caller cancels, reads all then answers, nobody listens (the dial is refused)} x status (2xx, 307, 4xx, 5xx; optionally after an interim 100 / 103) x {close, drain, hold} x size {0, 10 B, 1 MiB, 8 MiB} x write chunking x caller behaviour x caller-side cancellation point {never, at 0, half-way, after the last Write}; call/return events at the caller and at the inner HTTP client boundary stamped from one counter. " +
 			"calls while an upload is open (exhaustive): client built on {*http.Client, a wrapping type, HTTPClientWithBasicAuth, in-process double} x {Stat, ReadDir, Open, Mkdir, a second complete upload} x {right after Create, between two Writes} x {from the goroutine holding the writer, from another one} against the real handler on a directory; every call must return with its solo result, both uploads stored byte for byte. " +
+			"principal schedules: N users ask one server built on ServePrincipal with ONE options value (fields empty / set) for N different principal URLs at once, every answer compared with the answer of an identical server that has served nothing else. " +
+			"uploads open at once (exhaustive): K in {3, 20, 100} streamed uploads to K different files held open by one caller and finished last-opened-first / first-opened-first / shuffled, by one goroutine or one each, optionally with every seventh upload refused (409), over TCP (with and without waiting for the handler to have started on each) and in process, against the real handler on a directory: every Close returns nil, every file is stored byte for byte. " +
+			"sequels (exhaustive in quick but for the status): one call of a client {upload read / not read by the server, Mkdir, Stat, ReadDir, Open, RemoveAll, Copy, Move} is refused by a front end with 403 / 507, 10 Content-Types x {no, short, 4 KiB, DAV:error} body, then the same client uploads to, stats and reads an unrelated resource; the inner *http.Client bounds its connections per host (1; 1 behind HTTPClientWithBasicAuth; thorough also 2 after two refusals). " +
 			"distinct_nontrivial = distinct interleaving signatures (global call/return order per run) + distinct fault-matrix cells.",
 		Assumptions: []string{
 			"the reference for Close is what the inner HTTPClient returned, not what the server sent (net/http may legitimately report a write error or the early response)",
@@ -183,6 +205,9 @@ func init() {
 			"a 2xx status line with its header block is 'the server has answered': the library has no use for the body of a 2xx answer to a PUT, so a body that never completes (short of its Content-Length, no last-chunk) on a connection the server keeps open must not keep Close from returning nil; for non-2xx answers, whose body the client reads for the error condition, no such cell exists",
 			"once the caller has cancelled the context the request is over whatever the server does: a Write or Close that stays blocked after that is a deadlock",
 			"the raw multi-user schedules compare every answer with the answer of an identical but separate handler instance serving one request at a time; the backend double may yield or sleep a few microseconds at the start of an operation (a slow backend)",
+			"ServePrincipal with one options value kept for all requests is a 'single server handler'; every shape of the options value (any field empty) is legal",
+			"uploads to different files held open at the same time by one caller are 'concurrent requests that touch disjoint resources': each terminates with its solo result when it is closed, in whatever order the caller closes them",
+			"http.Transport.MaxConnsPerHost is a legal configuration of the inner HTTP client; a non-2xx answer of any media type, with or without a body, is a legal answer. What a refused call other than an upload returns is not judged here (C14)",
 			"race reports whose stacks hold only harness frames are harness bugs: inconclusive, never a violation",
 		},
 		Shards:      func(t string) int { return 8 },
